@@ -32,6 +32,8 @@ AreaTypes == {"open", "suburban", "medium city", "large city"}
 \* does the setter `op` of model `m` accept the (rational or string) value v ?
 Accepts(m, op, v) ==
   CASE op = "SetPol"  -> TRUE
+    [] op = "SetShadow" -> TRUE
+    [] op = "SetSigma"  -> RSgn(v) >= 0
     [] op = "SetN"    -> RSgn(v) > 0
     [] op = "SetFc"   -> IF m = "hata" THEN LLe(R(150), v) /\ LLe(v, R(1500)) ELSE RSgn(v) > 0
     [] op = "SetHbs"  -> LLe(R(30), v) /\ LLe(v, R(200))
@@ -39,9 +41,10 @@ Accepts(m, op, v) ==
     [] op = "SetArea" -> v \in AreaTypes
 
 \* setters each model offers (public attributes / properties of the class)
+Common == {"SetPol", "SetShadow", "SetSigma"}
 Offers(m) ==
-  CASE m = "freespace" -> {"SetPol", "SetN", "SetFc"}
-    [] m = "metis"     -> {"SetPol", "SetFc"}
-    [] m = "hata"      -> {"SetPol", "SetFc", "SetHbs", "SetHms", "SetArea"}
-    [] OTHER           -> {"SetPol"}
+  CASE m = "freespace" -> Common \cup {"SetN", "SetFc"}
+    [] m = "metis"     -> Common \cup {"SetFc"}
+    [] m = "hata"      -> Common \cup {"SetFc", "SetHbs", "SetHms", "SetArea"}
+    [] OTHER           -> Common
 =============================================================================
